@@ -12,7 +12,7 @@ TEXT = {
  "C06": ("Lean theorems: after the skip store every continuation delivers nothing (known size); wrapper: skip sets completed, afterwards starting pulls receive nothing; safety invariants hold in histories with skips.", "§7 C06"),
  "C07": ("Lean theorems: mutual exclusion of the critical section and of next() for all fused scripts (panics included), programs with skips, schedules; calls happen in position order. Happens-before: Lean theorem hb_chain (vector-clock ghost state over SC interleavings, C11 release/acquire through `yielded`) instantiated with the orderings extracted from the current source on every run; partial: SC interleavings only (stale-read executions are not modelled), synchronisation through `reserved`/`completed` ignored (conservative).", "§7 C07"),
  "C08": ("Lean theorems: consumed ∪ dropped-by-chunk = handed out; handed out ∪ dropped-by-Drop = 0..len exactly once for every program and schedule (no skip/get/wrap); skip_to_end drops the rest (fix for D5); open finding D12 as a kernel-checked witness.", "§7 C08"),
- "C09": ("Lean theorems: known-size wait-freedom (a called op completes with its next own step in every configuration; steps never touch other threads); wrapper: deadlock freedom in every reachable configuration (panics and skips included): some working thread is never waiting, spin iterations are harmless; the ticket holder enters without waiting. Termination under every weakly fair schedule is proved for programs of single/chunk/buffered pulls and skips (potential + generic fairness lemma); for the looping adaptors (for_each/fold/values) only deadlock freedom is proved (partial), the stuck detector covers them on traces.", "§7 C09"),
+ "C09": ("Lean theorems: known-size wait-freedom (a called op completes with its next own step in every configuration; steps never touch other threads); wrapper: deadlock freedom in every reachable configuration (panics and skips included): some working thread is never waiting, spin iterations are harmless; the ticket holder enters without waiting. Termination under every weakly fair schedule is proved for all programs (single/chunk/buffered pulls, skips, and the looping adaptors) over every wrapped iterator that eventually stops yielding: potential + deadlock freedom + generic fairness lemma.", "§7 C09"),
  "C10": ("Lean theorems: delivered ++ remainder = 0..len for every program and schedule; remainder empty after skip and always in range.", "§7 C10"),
  "C11": ("Lean theorems: reported length = what continuations can deliver, never increases, zero is definitive (known size); wrapper: completed ⇒ 0, exact hint ⇒ len − reserved, monotone.", "§7 C11"),
  "C12": ("Lean theorems: fold_combine for any commutative monoid over any partition that is a permutation of the source; loops visit the positions of their pulls with the right index; a loop returns only at the end; all positions visited once.", "§7 C12"),
